@@ -29,6 +29,7 @@ type GenCfg struct {
 	POpts              float64 // per test: IssueCode / IssuePath / Message options
 	PEmbed             float64 // per nested struct field: the destination embeds it (anonymous field)
 	PPtrInput          float64 // per pointer-to-number/bool node: the input is a Go pointer of the destination's pointer type
+	NoEmptyKeys        bool    // never the empty zog tag (a field at the empty key shares its issue path with its parent)
 	PreferDeep         bool    // below the root mostly containers: deep nestings instead of bushy ones
 	NoMsgOpts          bool    // never the Message option (every issue then reaches the execution's formatter)
 	PZogTag            float64 // per field: zog tag
@@ -734,6 +735,7 @@ func (g *Gen) GenNode(depth int, root bool) *Node {
 			nf = g.intn(9, 12, "nfm")
 		}
 		used := map[string]bool{}
+		emptyKeyUsed := false
 		for len(n.Fields) < nf {
 			key := pick(g, fieldKeys, "fk")
 			gn := strings.ToLower(Field{Key: key}.GoName())
@@ -764,6 +766,9 @@ func (g *Gen) GenNode(depth int, root bool) *Node {
 				f.Tags = map[string]string{"zog": pick(g, []string{"zt_", "first-", "T"}, "ztp") + key}
 				if g.p(0.12, "ztc") {
 					f.Tags["zog"] += ",omitempty" // the whole tag value is the key (no encoding/json style options)
+				}
+				if !g.Cfg.LogicalKeys && !g.Cfg.NoEmptyKeys && !emptyKeyUsed && f.Node.Kind != KStruct && f.Node.Kind != KPtr && f.Node.Kind != KSlice && g.p(0.06, "ztempty") {
+					f.Tags["zog"], emptyKeyUsed = "", true // the empty key (one leaf field per struct at most)
 				}
 			}
 			if !(g.Cfg.NoNestedSourceTags && g.sdepth > 0) {
